@@ -25,7 +25,8 @@ def cases(rng, tier, X):
         clocked = rng.random() < 0.5
         if clocked:
             ops.append('clock %d' % rng.choice([1, 1000, 5000]))
-        for f in history(rng, F.OWN, mtu):
+        hist = history(rng, F.OWN, mtu)
+        for f in hist:
             if clocked and rng.random() < 0.5:
                 ops.append('clock %d' % rng.choice(F.CLOCK_STEPS[:10]))     # time passes; in particular Resets a few milliseconds apart
             hiccup = rng.random() < 0.08
@@ -54,6 +55,12 @@ def cases(rng, tier, X):
         ops.append('rx 0 %s zero' % F.reset(rng.choice(F.STATIONS), tos=0))
         ops.append('note continuation')
         cont = []
+        if rng.random() < 0.5:
+            # the continuation starts with the very frames that came last before the Reset (same senders, same sequence
+            # numbers, same offsets): whatever the responder remembered about them must be gone
+            cont += hist[-rng.randint(1, 4):]
+            if rng.random() < 0.5:
+                cont.append(F.query(rng.choice(F.STATIONS), F.OWN, 5))
         for _ in range(rng.randint(1, 3)):
             cont += F.session(rng, F.OWN, n=rng.randint(2, 14))
         mapper = rng.choice(F.STATIONS)
